@@ -917,7 +917,7 @@ func conj(a ...MalType) (MalType, error) {
 		}
 		return List{Val: append(new_slc, seq.Val...)}, nil
 	case Vector:
-		new_slc := append(seq.Val, a[1:]...)
+		new_slc := append(copy_vector(seq).Val, a[1:]...)
 		return Vector{Val: new_slc}, nil
 	case HashMap:
 		if len(a)%2 != 1 {
